@@ -11,15 +11,40 @@ impl Rng {
     pub fn below(&mut self, n: u64) -> u64 { self.next() % n }
     pub fn flag(&mut self) -> bool { self.next() & 1 == 1 }
     pub fn pick(&mut self, xs: &[u64]) -> u64 { xs[self.below(xs.len() as u64) as usize] }
+    pub fn pick_str<'a>(&mut self, xs: &[&'a str]) -> &'a str { xs[self.below(xs.len() as u64) as usize] }
     pub fn pick8(&mut self, xs: &[u8]) -> u8 { xs[self.below(xs.len() as u64) as usize] }
 }
 
 pub fn hex(b: &[u8]) -> String { let mut s = String::with_capacity(b.len() * 2); for x in b { s.push_str(&format!("{:02x}", x)); } s }
+/// hex bytes; `R<hh>x<n>.` inside a hex string stands for the byte `hh` repeated `n` (decimal) times (long runs stay short lines)
 pub fn unhex(s: &str) -> Vec<u8> {
     let s = s.as_bytes(); let mut v = Vec::with_capacity(s.len() / 2);
     let h = |c: u8| -> u8 { match c { b'0'..=b'9' => c - b'0', b'a'..=b'f' => c - b'a' + 10, b'A'..=b'F' => c - b'A' + 10, _ => 0 } };
-    let mut i = 0; while i + 1 < s.len() { v.push(h(s[i]) * 16 + h(s[i + 1])); i += 2; }
+    let mut i = 0;
+    while i + 1 < s.len() {
+        if s[i] == b'R' && i + 4 < s.len() {
+            let b = h(s[i + 1]) * 16 + h(s[i + 2]); let mut j = i + 4; let mut n = 0usize;
+            while j < s.len() && s[j].is_ascii_digit() { n = n * 10 + (s[j] - b'0') as usize; j += 1; }
+            v.extend(std::iter::repeat(b).take(n)); i = j + 1;
+        } else { v.push(h(s[i]) * 16 + h(s[i + 1])); i += 2; }
+    }
     v
+}
+/// hex with runs of 12 or more equal bytes written as `R<hh>x<n>.`
+pub fn hex_rle(d: &[u8]) -> String {
+    let mut s = String::with_capacity(d.len().min(4096) * 2); let mut i = 0;
+    while i < d.len() { let mut j = i; while j < d.len() && d[j] == d[i] { j += 1; }
+        if j - i >= 12 { s.push_str(&format!("R{:02x}x{}.", d[i], j - i)); } else { for b in &d[i..j] { s.push_str(&format!("{:02x}", b)); } } i = j; }
+    s
+}
+/// number of input bytes a case line carries (hex digits / 2, runs expanded)
+pub fn input_len(line: &str) -> usize {
+    let s = line.as_bytes(); let mut i = 0; let mut digits = 0usize; let mut run = 0usize;
+    while i < s.len() {
+        if s[i] == b'R' && i + 4 < s.len() && s[i + 3] == b'x' { let mut j = i + 4; let mut n = 0usize; while j < s.len() && s[j].is_ascii_digit() { n = n * 10 + (s[j] - b'0') as usize; j += 1; } run += n; i = j + 1; }
+        else { if s[i].is_ascii_hexdigit() { digits += 1; } i += 1; }
+    }
+    digits / 2 + run
 }
 
 /// MSB-first bit writer with the Exp-Golomb codes of clause 9.1
